@@ -55,6 +55,21 @@ fn main() {
     if ok(&jwt("", &claims(DID, r#""nbf":253402300799,"#)), &d) { return Err("token issued in year 9999 accepted with default options".into()); }
     Ok(())
   });
+  w("vp_duplicates_must_agree", || {
+    let o = JwtPresentationValidationOptions::default();
+    let c = |extra: &str, vp_extra: &str| format!(r#"{{ {extra} "iss":"{DID}", "vp": {{ "@context":"https://www.w3.org/2018/credentials/v1","type":"VerifiablePresentation" {vp_extra} }} }}"#);
+    for (extra, vp_extra, want) in [
+      (r#""jti":"https://example.com/p/1","#, r#","id":"https://example.com/p/1""#, true),
+      (r#""jti":"https://example.com/p/2","#, r#","id":"https://example.com/p/1""#, false),
+      ("", r#","id":"https://example.com/p/1""#, false),
+      (r#""jti":"https://example.com/p/1","#, "", true),
+      ("", r#","holder":"did:example:holder""#, true),
+      ("", r#","holder":"did:example:other""#, false),
+    ] {
+      if ok(&jwt("", &c(extra, vp_extra)), &o) != want { return Err(format!("claims [{extra}] vp [{vp_extra}]: expected accept={want}")); }
+    }
+    Ok(())
+  });
   w("vp_nonce_and_kid_rules", || {
     let o = |n: Option<&str>| { let mut v = JwsVerificationOptions::default(); if let Some(n) = n { v = v.nonce(n); } JwtPresentationValidationOptions::default().presentation_verifier_options(v) };
     if ok(&jwt("", &claims(DID, "")), &o(Some("n1"))) { return Err("token without nonce accepted although a nonce is required".into()); }
